@@ -4,7 +4,7 @@ label, discard, move to missing destinations, invalid interpolation, command con
 populations, in maildir and stdin mode; the whole sandbox is snapshotted before and after (names,
 sizes, hashes, mtimes).  The model fact is structural (MainDefs.pipeline): the monitor is the
 snapshot comparison plus the absence of any mutating call / exec-action fork in the trace."""
-import os
+import os, random
 import common, mdrun, confgen, iorun
 from iorun import parse_trace
 
@@ -73,6 +73,13 @@ def one_run(ck, rng, stats, mode, conf_text, stdin_msg=None, samples=None, varia
     env = {'VFIO_LOG': log, 'VFIO_ROOT': sb.root, 'VERIF_HELPER_OUT': hout}
     if variant == 'dtunknown':
         env['VFIO_DTUNKNOWN'] = '1'          # a file system that does not report file types
+    if variant and variant.startswith('env:'):
+        # an unusual environment: a variable of the given length (realistic spelling: a zone file path padded with "./")
+        _, var, ln = variant.split(':')
+        ln = int(ln)
+        val = ':/usr/share/zoneinfo/' + './' * ((ln - 28) // 2) + ('/' if (ln - 28) % 2 else '') + 'Etc/UTC' if var == 'TZ' else '/' + 'd' * (ln - 1)
+        assert len(val) == ln, (len(val), ln)
+        env[var] = val
     args = mode.split() + (['-'] if stdin_msg is not None else [])
     rc, out, err = sb.run(args, conf=conf, env=env, stdin=stdin_msg, preload=iorun.SHIM,
                           stdout_path='/dev/full' if variant == 'devfull' else None)   # stdout that cannot be written
@@ -116,7 +123,8 @@ def one_run(ck, rng, stats, mode, conf_text, stdin_msg=None, samples=None, varia
         def in_spool(c):
             a0 = c['args'].split(' ')[0]
             return any(a0 == sp or a0.startswith(sp + '/') or (' ' in c['args'] and c['args'].split(' ')[1].startswith(sp)) for sp in spools)
-        mut = [c for c in trace if c['call'] in MUTATING and not in_spool(c)]
+        # (a call on the empty path - rmdir("") in the clean-up after a spool that was never created - cannot change anything)
+        mut = [c for c in trace if c['call'] in MUTATING and not in_spool(c) and c['args'].split(' ')[0] != '']
         forks = [c for c in trace if c['call'] == 'fork']
         if mut:
             bad = 'mutating call(s) under -d: %s' % [(c['call'], c['args'][:60]) for c in mut[:4]]
@@ -191,6 +199,17 @@ def run(ck):
             one_run(ck, rng, stats, '-d', c, variant='dtunknown')
         if len(ck.violations) > 6:
             break
+    # unusual environments: values at and beyond what mdsort's own buffers hold (TZ: 256 bytes; HOME, TMPDIR: PATH_MAX) - whether mdsort
+    # refuses to start or copes, -d and -n change nothing
+    envs = ['env:TZ:%d' % l for l in (255, 256, 272, 279, 280, 281, 282, 283, 284, 288, 300)] + ['env:TMPDIR:%d' % l for l in (4095, 4096)] + ['env:HOME:4096']
+    if ck.tier == 'quick':
+        envs = envs[ck.rng.randrange(2)::2] + ['env:TZ:280']
+    for v in envs:
+        c = confs[n + 2] if v.endswith(('0', '2')) else confs[0]
+        for mode in ('-d', '-n'):
+            one_run(ck, rng, stats, mode, c, variant=v)
+        f = lambda ctx, sb: confgen.render_conf(confgen.gen_block(random.Random(7), 0, 1, atoms=confgen.NATOMS), ctx, stdin=True)
+        one_run(ck, rng, stats, '-d', f, stdin_msg=confgen.message_for(confgen.all_envs()[0], 7), variant=v)
     # stdin mode
     for i in range(6 if ck.tier == 'quick' else 60):
         rules = confgen.gen_block(rng, 0, 1, atoms=confgen.NATOMS)
@@ -215,7 +234,7 @@ def run(ck):
         'distinct_nontrivial': stats['nontrivial'],
         'rule': 'random rule trees (confgen: and/or/!/parentheses/unparenthesised chains, nested blocks, actions move/flag/flags/label/add-header/discard/exec, '
                 'pass/break) plus 7 special configurations (missing destination, invalid back-reference, command condition + exec stdin + label, exec stdin body, '
-                'date+isdirectory, attachment block, two maildirs) over a population of 9 messages in new/cur; each with -d and with -n, a fifth also with -n and -d / -v combined in either order and spelling and with -d and repeated -v; stdin variants; 7 configurations whose real run '
+                'date+isdirectory, attachment block, two maildirs) over a population of 9 messages in new/cur; each with -d and with -n, a fifth also with -n and -d / -v combined in either order and spelling and with -d and repeated -v; stdin variants; -d / -n under TZ values of 255-300 characters and HOME / TMPDIR of PATH_MAX characters; 7 configurations whose real run '
                 'would fail (path too long after interpolation / as configured, missing destination, invalid back-reference, exec) in maildir and stdin mode. '
                 'non-trivial = a run that opened at least one message; distinct = distinct runs',
         'samples': samples,
